@@ -23,10 +23,12 @@ Record st := mkSt {
   memo : list string;               (* context.circulars *)
   cache : list (string * json);     (* the resolution cache: canonical URL -> document *)
   log : list string;                (* URLs requested from the loader, most recent first *)
-  rootid : string }.                (* context.rootID *)
+  rootid : string;                  (* context.rootID *)
+  dfail : bool }.                   (* the last resolution failed while DECODING the target (it was found) *)
 
-Definition set_memo (s : st) (m : list string) := mkSt m (cache s) (log s) (rootid s).
-Definition set_cache (s : st) (c : list (string * json)) := mkSt (memo s) c (log s) (rootid s).
+Definition set_memo (s : st) (m : list string) := mkSt m (cache s) (log s) (rootid s) (dfail s).
+Definition set_cache (s : st) (c : list (string * json)) := mkSt (memo s) c (log s) (rootid s) (dfail s).
+Definition set_dfail (s : st) (b : bool) := mkSt (memo s) (cache s) (log s) (rootid s) b.
 
 (* [Failed sf]: an error; sf is the state at that point — cache, memo and loader log persist (they are
    shared mutable objects in the Go code), and a refused request is logged too *)
@@ -179,22 +181,22 @@ Definition load (s : st) (u : string) : eres (st * json) :=
     match assoc n (cache s) with
     | Some d => Done (s, d)
     | None => match assoc n docs with
-              | Some d => Done (mkSt (memo s) ((n, d) :: cache s) (n :: log s) (rootid s), d)
-              | None => Failed (mkSt (memo s) (cache s) (n :: log s) (rootid s))
+              | Some d => Done (mkSt (memo s) ((n, d) :: cache s) (n :: log s) (rootid s) false, d)
+              | None => Failed (mkSt (memo s) (cache s) (n :: log s) (rootid s) false)
               end
     end).
 
 (* the tail of resolveRef: evaluate the pointer, then the typed decoding (DynamicJSONToStruct) *)
 Definition resolve_finish (ref kind : string) (toks : list string) (s' : st) (data : json) : eres (st * json) :=
   match (if String.eqb ref "" then Some data else ptr_get toks data) with
-  | None => Failed s'
+  | None => Failed (set_dfail s' false)
   | Some res => match res with
                 | JObj _ => match norm E res (TNamed kind) with
-                            | ROk v => Done (s', v)
-                            | RErr => Failed s'
+                            | ROk v => Done (set_dfail s' false, v)
+                            | RErr => Failed (set_dfail s' true)
                             | RUnsup => Unsup
                             end
-                | _ => Failed s'
+                | _ => Failed (set_dfail s' true)     (* a string, number, boolean or array where an object is expected *)
                 end
   end.
 
@@ -275,7 +277,7 @@ Definition apply_id (s : st) (m : list (string * json)) (base : string) : eres (
     let refp := if has_suffix ["/"%char] (s2l id) then id ++ "placeholder.json" else id in
     pbind s (nuri refp base) (fun nb =>
       let s1 := set_cache s ((nb, JObj m) :: cache s) in
-      let s2 := if String.eqb base ctx_base then mkSt (memo s1) (cache s1) (log s1) nb else s1 in
+      let s2 := if String.eqb base ctx_base then mkSt (memo s1) (cache s1) (log s1) nb (dfail s1) else s1 in
       Done (s2, nb)).
 
 (* expandSchemaRef *)
@@ -290,7 +292,12 @@ Definition expand_schema_ref (s : st) (parents : list string) (rroot : option st
       match resolve s1 rroot ref base "Schema" with
       | Done (s2, t) =>
           ebind (transitive s2 rroot base ref) (fun rc => follow s2 (parents ++ [nref])%list (fst rc) (strip_frag nref) t)
-      | Failed sf => if o_cont OP then Done (sf, JObj m) else Failed sf
+      | Failed sf =>
+          if o_cont OP then
+            (* json.Unmarshal allocates the *Schema before it fails: an ill-typed target leaves an EMPTY schema in
+               place of the holder (the ref is lost); a missing document or pointer leaves the holder as it was *)
+            if dfail sf then Done (set_dfail sf false, JObj []) else Done (sf, JObj m)
+          else Failed sf
       | OOF => OOF
       | Unsup => Unsup
       end).
@@ -440,30 +447,25 @@ Definition expand_spec_with (fuel : nat) (root_url : string) (root : json) (s : 
   match root with
   | JObj m =>
       let rr := Some root_url in
-      let step (acc : eres (st * list (string * json))) (kv : string * json) :=
-        ebind acc (fun so =>
-          let '(s, out) := so in
-          let k := fst kv in
-          match snd kv with
-          | JObj vm =>
-              if String.eqb k "definitions" then
-                if o_skip OP then Done (s, (out ++ [kv])%list)
-                else ebind (fold_left (fun acc2 dv => ebind acc2 (fun so2 =>
-                               ebind (walk (snd dv) (fst so2) ["#/definitions/" ++ fst dv] rr ctx_base)
-                                     (fun sv => Done (fst sv, (snd so2 ++ [(fst dv, snd sv)])%list)))) vm (Done (s, [])))
-                           (fun sv => Done (fst sv, (out ++ [(k, JObj (snd sv))])%list))
-              else if String.eqb k "parameters" then
-                ebind (map_values (fun s x => expand_por fuel s rr ctx_base "Parameter" x) vm s) (fun sv => Done (fst sv, (out ++ [(k, JObj (snd sv))])%list))
-              else if String.eqb k "responses" then
-                ebind (map_values (fun s x => expand_por fuel s rr ctx_base "Response" x) vm s) (fun sv => Done (fst sv, (out ++ [(k, JObj (snd sv))])%list))
-              else if String.eqb k "paths" then
-                ebind (map_values (fun s x => match x with
-                                              | JObj _ => expand_path_item fuel s rr ctx_base x
-                                              | _ => Done (s, x) end) vm s) (fun sv => Done (fst sv, (out ++ [(k, JObj (snd sv))])%list))
-              else Done (s, (out ++ [kv])%list)
-          | _ => Done (s, (out ++ [kv])%list)
+      (* the four sections in the order ExpandSpec visits them; entries in the order of the JSON object *)
+      let section (k : string) (f : st -> string -> json -> eres (st * json)) (acc : eres (st * list (string * json))) :=
+        ebind acc (fun sm =>
+          match assoc k (snd sm) with
+          | Some (JObj vm) =>
+              ebind (fold_left (fun acc2 dv => ebind acc2 (fun so2 =>
+                                  ebind (f (fst so2) (fst dv) (snd dv)) (fun sv => Done (fst sv, (snd so2 ++ [(fst dv, snd sv)])%list))))
+                               vm (Done (fst sm, [])))
+                    (fun sv => Done (fst sv, set_member k (JObj (snd sv)) (snd sm)))
+          | _ => Done sm
           end) in
-      ebind (fold_left step m (Done (s, []))) (fun so => Done (fst so, JObj (snd so)))
+      let r0 : eres (st * list (string * json)) := Done (s, m) in
+      let r1 := if o_skip OP then r0
+                else section "definitions" (fun s k v => walk v s ["#/definitions/" ++ k] rr ctx_base) r0 in
+      let r2 := section "parameters" (fun s _ v => expand_por fuel s rr ctx_base "Parameter" v) r1 in
+      let r3 := section "responses" (fun s _ v => expand_por fuel s rr ctx_base "Response" v) r2 in
+      let r4 := section "paths" (fun s k v => if has_x_prefix_ci k then Done (s, v)
+                                              else match v with JObj _ => expand_path_item fuel s rr ctx_base v | _ => Done (s, v) end) r3 in
+      ebind r4 (fun sm => Done (fst sm, JObj (snd sm)))
   | _ => Failed s
   end.
 End Walk.
